@@ -157,6 +157,9 @@ pub fn info_for(g: &Generated, outcome: &str, nontrivial: bool) -> Info {
     if !g.uncertain {
         classes.push("depth-certain".into());
     }
+    if g.ops.contains(&crate::model::Op::Caller) {
+        classes.push("caller".into());
+    }
     if g.max_depth > 16 {
         classes.push("depth>16".into());
     }
